@@ -44,8 +44,8 @@ type Trace struct {
 	NewErr       string
 	Deadlock     string
 	Leaked       []string
-	// Early: the cumulative bound of C04 was already exceeded at this receive; the run was cut
-	// short there (whatever the discipline does afterwards cannot hide it)
+	// Early: the first receive at which the cumulative bound of C04 was exceeded (noted while the
+	// run goes on)
 	Early string
 }
 
@@ -176,13 +176,8 @@ func executeT[T any](t *testing.T, s Script, leakScan bool, budget time.Duration
 			}
 			tr.Recv = append(tr.Recv, now())
 			tr.Vals = append(tr.Vals, val(v, len(tr.Vals)))
-			if r := tr.Recv[len(tr.Recv)-1]; uint64(len(tr.Recv)) > mulSat(s.Q, uint64(r/s.I)+1) {
+			if r := tr.Recv[len(tr.Recv)-1]; tr.Early == "" && uint64(len(tr.Recv)) > mulSat(s.Q, uint64(r/s.I)+1) {
 				tr.Early = fmt.Sprintf("cumulative bound: %d elements received by t=%dns, allowed %d (Q=%d I=%dns)", len(tr.Recv), r, mulSat(s.Q, uint64(r/s.I)+1), s.Q, s.I)
-				go func() { // let the producer and the discipline finish on their own
-					for range dsc.Output() {
-					}
-				}()
-				return
 			}
 		}
 		if !leakScan {
